@@ -62,12 +62,39 @@ macro_rules! output_merge_opt {
     };
 }
 
+// heap-owning values: concrete presence patterns (see c14_merge_input.rs for the measurement): only one operand has
+// the field, merged in both directions; then both operands hold the identical value.
+macro_rules! output_merge_heap {
+    ($name:ident, $field:ident, $mk:expr $(, $stub:meta)*) => {
+        #[kani::proof]
+        $(#[$stub])*
+        fn $name() {
+            let v = $mk;
+            {
+                let mut a1 = Output::default(); let mut b1 = Output::default();
+                let a2 = Output::default(); let mut b2 = Output::default();
+                let mut want = Output::default();
+                b1.$field = Some(v.clone()); b2.$field = Some(v.clone()); want.$field = Some(v.clone());
+                match a1.merge(b1) { Ok(()) => {}, Err(e) => { fgt(e); assert!(false, "merge of conflict-free operands failed"); } }
+                match b2.merge(a2) { Ok(()) => {}, Err(e) => { fgt(e); assert!(false, "merge of conflict-free operands failed"); } }
+                kani::cover!(true);
+                assert!(a1.$field == want.$field, "field present only in the second operand is present in the result");
+                assert!(b2.$field == want.$field, "field present only in the first operand is kept");
+                assert!(a1 == want, "no other field disturbed");
+                assert!(b2 == want, "no other field disturbed (other order)");
+                fgt(a1); fgt(b2); fgt(want);
+            }
+            fgt(v);
+        }
+    };
+}
+
 //@ harness: c14_out_merge_redeem_script class=B tier=quick bound="script of exactly 2 symbolic bytes"
-//@ clause: Output::merge keeps redeem_script present in either operand, order-insensitive
-output_merge_opt!(c14_out_merge_redeem_script, redeem_script, script2());
+//@ clause: Output::merge: redeem_script present in exactly one operand is present in the result whichever operand is merged into which; nothing else disturbed
+output_merge_heap!(c14_out_merge_redeem_script, redeem_script, script2());
 //@ harness: c14_out_merge_witness_script class=B tier=thorough bound="script of exactly 2 symbolic bytes"
-//@ clause: Output::merge keeps witness_script present in either operand, order-insensitive
-output_merge_opt!(c14_out_merge_witness_script, witness_script, script2());
+//@ clause: Output::merge: witness_script present in exactly one operand is present in the result whichever operand is merged into which
+output_merge_heap!(c14_out_merge_witness_script, witness_script, script2());
 //@ harness: c14_out_merge_blinder_index class=F tier=quick
 //@ clause: Output::merge keeps blinder_index present in either operand, order-insensitive
 output_merge_opt!(c14_out_merge_blinder_index, blinder_index, kani::any::<u32>());
@@ -84,12 +111,12 @@ output_merge_opt!(c14_out_merge_blinding_key, blinding_key, any_btc_pubkey(),
 output_merge_opt!(c14_out_merge_ecdh_pubkey, ecdh_pubkey, any_btc_pubkey(),
     kani::stub(zffi::secp256k1_ec_pubkey_cmp, model_ec_pubkey_cmp));
 //@ harness: c14_out_merge_value_rangeproof class=B tier=quick bound="3-byte range proof (structural validity assumed through the rangeproof_info model)"
-//@ clause: Output::merge keeps value_rangeproof present in either operand, order-insensitive
-output_merge_opt!(c14_out_merge_value_rangeproof, value_rangeproof, any_rangeproof3(),
+//@ clause: Output::merge: value_rangeproof present in exactly one operand is present in the result whichever operand is merged into which
+output_merge_heap!(c14_out_merge_value_rangeproof, value_rangeproof, any_rangeproof3(),
     kani::stub(zffi::secp256k1_rangeproof_info, model_rangeproof_info));
 //@ harness: c14_out_merge_blind_value_proof class=B tier=thorough bound="3-byte range proof"
-//@ clause: Output::merge keeps blind_value_proof present in either operand, order-insensitive
-output_merge_opt!(c14_out_merge_blind_value_proof, blind_value_proof, any_rangeproof3(),
+//@ clause: Output::merge: blind_value_proof present in exactly one operand is present in the result whichever operand is merged into which
+output_merge_heap!(c14_out_merge_blind_value_proof, blind_value_proof, any_rangeproof3(),
     kani::stub(zffi::secp256k1_rangeproof_info, model_rangeproof_info));
 
 // ---- explicit amount / asset next to a commitment: NOT merged by Output::merge (candidate disagreement) ----
@@ -128,34 +155,43 @@ fn c14_out_merge_asset_with_commitment() {
     fgt(a);
 }
 
-// ---- BTreeMap fields ----
-macro_rules! output_merge_map {
-    ($name:ident, $field:ident, $mkk:expr, $mkv:expr) => {
+// ---- BTreeMap fields ---- (shape and unwind bound: see c14_merge_input.rs; unions of two non-empty maps not affordable)
+macro_rules! output_merge_map1 {
+    ($name:ident, $field:ident, $mkk:expr, $mkv:expr $(, $stub:meta)*) => {
         #[kani::proof]
+        #[kani::unwind(3)]
+        $(#[$stub])*
         fn $name() {
-            let k1 = $mkk; let v1: Vec<u8> = $mkv;
-            let k2 = $mkk; let v2: Vec<u8> = $mkv;
-            let same = k1 == k2;
-            kani::assume(!same || v1 == v2);
+            let k = $mkk; let v = $mkv;
             let mut a1 = Output::default(); let mut b1 = Output::default();
-            let mut a2 = Output::default(); let mut b2 = Output::default();
-            a1.$field.insert(k1.clone(), v1.clone()); a2.$field.insert(k1.clone(), v1.clone());
-            b1.$field.insert(k2.clone(), v2.clone()); b2.$field.insert(k2.clone(), v2.clone());
-            kani::cover!(same);
-            kani::cover!(!same);
+            let a2 = Output::default(); let mut b2 = Output::default();
+            b1.$field.insert(k.clone(), v.clone());
+            b2.$field.insert(k.clone(), v.clone());
             match a1.merge(b1) { Ok(()) => {}, Err(e) => { fgt(e); assert!(false, "merge of conflict-free operands failed"); } }
             match b2.merge(a2) { Ok(()) => {}, Err(e) => { fgt(e); assert!(false, "merge of conflict-free operands failed"); } }
-            let want_len = if same { 1 } else { 2 };
-            assert!(a1.$field.len() == want_len && b2.$field.len() == want_len, "union has exactly the entries of both operands");
-            assert!(a1.$field.get(&k1) == Some(&v1) && a1.$field.get(&k2) == Some(&v2), "merge(a,b) holds both entries");
-            assert!(b2.$field.get(&k1) == Some(&v1) && b2.$field.get(&k2) == Some(&v2), "merge(b,a) holds both entries");
-            fgt(a1); fgt(b2);
+            kani::cover!(true);
+            assert!(a1.$field.len() == 1 && b2.$field.len() == 1, "exactly the entry of the operand that had one");
+            assert!(a1.$field.iter().next() == Some((&k, &v)), "entry present only in the second operand is in the result");
+            assert!(b2.$field.iter().next() == Some((&k, &v)), "entry present only in the first operand is kept");
+            fgt(a1); fgt(b2); fgt(k); fgt(v);
         }
     };
 }
-//@ harness: c14_out_merge_unknown class=B tier=quick bound="one entry per operand; key = symbolic type byte + 1 symbolic key byte; 1-byte values"
-//@ clause: Output::merge: the `unknown` pairs of the result are the union of the operands' pairs, in both merge orders
-output_merge_map!(c14_out_merge_unknown, unknown, raw_key1(), val1());
-//@ harness: c14_out_merge_proprietary class=B tier=thorough bound="one entry per operand; 1-byte prefix, symbolic subtype, 1-byte key; 1-byte values"
-//@ clause: Output::merge: the proprietary pairs of the result are the union of the operands' pairs, in both merge orders
-output_merge_map!(c14_out_merge_proprietary, proprietary, prop_key1(), val1());
+fn key_source1() -> KeySource {
+    let f: [u8; 4] = kani::any();
+    let c: u32 = kani::any();
+    (bitcoin::bip32::Fingerprint::from(f), bitcoin::bip32::DerivationPath::from(vec![bitcoin::bip32::ChildNumber::from(c)]))
+}
+//@ harness: c14_out_merge_unknown_onesided class=B tier=quick bound="one entry in one operand, other map empty; symbolic type byte + 1 key byte; 1-byte value"
+//@ clause: Output::merge: an unknown pair present in exactly one operand is present in the result whichever operand is merged into which
+output_merge_map1!(c14_out_merge_unknown_onesided, unknown, raw_key1(), val1());
+//@ harness: c14_out_merge_proprietary_onesided class=B tier=thorough bound="one entry in one operand, other map empty; 1-byte prefix, symbolic subtype, 1-byte key; 1-byte value"
+//@ clause: Output::merge: a proprietary pair present in exactly one operand is present in the result whichever operand is merged into which
+output_merge_map1!(c14_out_merge_proprietary_onesided, proprietary, prop_key1(), val1());
+//@ harness: c14_out_merge_bip32_derivation_onesided class=B tier=thorough bound="one entry in one operand, other map empty; symbolic public key; 1-element path"
+//@ clause: Output::merge: a BIP-32 key derivation present in exactly one operand is present in the result whichever operand is merged into which
+output_merge_map1!(c14_out_merge_bip32_derivation_onesided, bip32_derivation, any_btc_pubkey(), key_source1(), kani::stub(zffi::secp256k1_ec_pubkey_cmp, model_ec_pubkey_cmp));
+//@ harness: c14_out_merge_tap_key_origins_onesided class=B tier=thorough bound="one entry in one operand, other map empty; symbolic x-only key; one leaf hash, 1-element path"
+//@ clause: Output::merge: a taproot key origin present in exactly one operand is present in the result whichever operand is merged into which
+output_merge_map1!(c14_out_merge_tap_key_origins_onesided, tap_key_origins, any_xonly(), (vec![TapLeafHash::from_byte_array(kani::any())], key_source1()), kani::stub(zffi::secp256k1_xonly_pubkey_cmp, model_xonly_pubkey_cmp));
+// not covered: tap_tree (building a TapTree hashes its leaves: SHA-256 is not executable under CBMC)
